@@ -34,7 +34,8 @@ let cmd_flux c =
   (match mps with None -> out "mp" "ERR" | Some ps -> out "mp" (string_of_int (List.length ps)));
   out "icons" (s_list (fun p -> s_bool (plaq_consistent l p)) ips);
   out "inodup" (s_list (fun p -> s_bool (nodupb p.p_edges)) ips);
-  out "icover" (s_bool (darts_cover l ips));
+  (* darts_cover is quadratic in the number of edges on unary indices: evaluated up to 400 edges *)
+  out "icover" (if List.length l.edges > 400 then "skip" else s_bool (darts_cover l ips));
   List.iteri (fun i u ->
       let k = string_of_int i in
       out ("pm" ^ k) (s_bool (all_pm1 u));
